@@ -344,7 +344,8 @@ macro_rules! for_b0 {
 
 /// Run `$run(b0, b12, b14, b15, last)` with literal parse-deciding octets of an NTPv5 header and
 /// the last character of the draft text. `quick`: server mode with flags {synchronized, auth-NAK},
-/// request mode and a wrong draft text. `all` adds no flags, a malformed mode, timescales,
+/// request mode and a wrong draft text. `more` adds no flags, a malformed mode, a timescale,
+/// interleaved flag, LI=3, timescale 4 and a reserved flag bit. `all` adds no flags, a malformed mode, timescales,
 /// interleaved flag, LI=3, reserved flag bits, timescale 4, and the 76-byte template under
 /// versions 4 and 3 (undecodable).
 #[macro_export]
@@ -355,6 +356,21 @@ macro_rules! for_v5hdr {
             1 => $run(0x2C, 0, 0, 0b100, b'9'),
             2 => $run(0x2B, 0, 0, 0b001, b'9'),
             3 => $run(0x2C, 0, 0, 0b001, b'8'),
+            _ => kani::assume(false),
+        }
+    };
+    (more, $sel:expr, $run:ident) => {
+        match $sel {
+            0 => $run(0x2C, 0, 0, 0b001, b'9'),
+            1 => $run(0x2C, 0, 0, 0b100, b'9'),
+            2 => $run(0x2B, 0, 0, 0b001, b'9'),
+            3 => $run(0x2C, 0, 0, 0b001, b'8'),
+            4 => $run(0x2C, 0, 0, 0b000, b'9'),
+            5 => $run(0x2D, 0, 0, 0b001, b'9'),
+            6 => $run(0x2C, 3, 0, 0b011, b'9'),
+            7 => $run(0xEC, 1, 0, 0b001, b'9'),
+            8 => $run(0x2C, 4, 0, 0b001, b'9'),
+            9 => $run(0x2C, 0, 0, 0b1001, b'9'),
             _ => kani::assume(false),
         }
     };
